@@ -78,6 +78,54 @@ PROBES = [
 ]
 
 
+# integer-like arguments at and beyond every internal width, for builtins that take positions, counts and lengths
+EXTREMES = ["-1e300", "1e300", "-Infinity", "Infinity", "NaN", "-9223372036854775808", "9223372036854775807", "2**53", "-(2**53)", "4294967296",
+            "-4294967297", "2147483648", "-2147483649", "-0", "0.5", "-1"]
+EXTREME_CALLS = [
+    "'abc'.at(X)", "'abc'.charAt(X)", "'abc'.charCodeAt(X)", "'abc'.codePointAt(X)", "'abc'.slice(X)", "'abc'.slice(1, X)", "'abc'.substring(X, 1)",
+    "'abc'.substr(X, 2)", "'abc'.substr(1, X)", "'abc'.indexOf('b', X)", "'abc'.lastIndexOf('b', X)", "'abc'.startsWith('a', X)", "'abc'.endsWith('c', X)",
+    "'abc'.includes('a', X)", "'abc'.padEnd(X % 1000, 'x').length", "'ab'.repeat(X % 100 || 0)", "'a,b'.split(',', X)", "String.fromCharCode(X)",
+    "[1,2,3].at(X)", "[1,2,3].slice(X)", "[1,2,3].slice(0, X)", "[1,2,3].splice(X, 1)", "[1,2,3].splice(1, X)", "[1,2,3].fill(0, X)", "[1,2,3].fill(0, 1, X)",
+    "[1,2,3].copyWithin(X, 0)", "[1,2,3].copyWithin(0, X)", "[1,2,3].copyWithin(0, 1, X)", "[1,2,3].indexOf(2, X)", "[1,2,3].lastIndexOf(2, X)",
+    "[1,2,3].includes(2, X)", "[1,[2,[3]]].flat(X)", "[1,2,3].with(X, 0)", "[1,2,3].toSpliced(X, 1)", "[1,2,3].toSpliced(1, X)", "Array.from({length: 2}).at(X)",
+    "new Uint8Array(4).at(X)", "new Uint8Array(4).subarray(X)", "new Uint8Array(4).subarray(1, X)", "new Uint8Array(4).slice(X)", "new Uint8Array(4).fill(1, X)",
+    "new Uint8Array(4).copyWithin(X, 1)", "new Uint8Array(4).set([1], X)", "new Uint8Array(4).with(X, 1)", "new Uint8Array(4).indexOf(0, X)",
+    "new Uint8Array(4).lastIndexOf(0, X)", "new Uint8Array(4).includes(0, X)", "new Uint8Array(new ArrayBuffer(8), X)", "new Uint8Array(new ArrayBuffer(8), 0, X)",
+    "new ArrayBuffer(8).slice(X)", "new ArrayBuffer(8).slice(0, X)", "new ArrayBuffer(8, {maxByteLength: 16}).resize(X)", "new SharedArrayBuffer(8).slice(X)",
+    "new DataView(new ArrayBuffer(8)).getInt8(X)", "new DataView(new ArrayBuffer(8)).setFloat64(X, 1)", "new DataView(new ArrayBuffer(8), X)",
+    "new DataView(new ArrayBuffer(8), 0, X)", "Atomics.load(new Int32Array(4), X)", "Atomics.store(new Int8Array(4), 0, X)", "Atomics.add(new Int16Array(4), X, 1)",
+    "(1.5).toFixed(X)", "(1.5).toPrecision(X)", "(1.5).toExponential(X)", "(255).toString(X)", "BigInt.asIntN(X, 5n)", "BigInt.asUintN(X, -5n)",
+    "new Date(X).getTime()", "new Date(0).setMonth(X)", "new Date(2000, X)", "Date.UTC(2000, 0, X)", "new Array(X)", "Array(X).length",
+    "Math.round(X) + Math.trunc(X) + Math.clz32(X) + Math.imul(X, X) + Math.fround(X)", "parseInt('11', X)", "Number.parseFloat('1e' + X)", "X >>> X", "X << X", "X ** X",
+    "X % X", "[].length = X", "({}).toString.call(X)", "JSON.stringify({a: 1}, null, X)", "'abc'.localeCompare('abd', undefined, {numeric: X})", "new Intl.NumberFormat().format(X)",
+    "String(X).normalize()", "Reflect.ownKeys({[X]: 1})", "Object.fromEntries([[X, X]])", "new Map([[X, X]]).get(X)", "new Set([X, -X]).size", "Symbol(X).description",
+    "structuredClone === undefined || structuredClone(X)", "var g = (function*(){ yield X })(); g.next(X); g.return(X)",
+]
+
+
+def extreme_probes():
+    return [c.replace("X", "(" + x + ")") for c in EXTREME_CALLS for x in EXTREMES]
+
+
+def escape_mutants(rng, texts, n):
+    """identifier or keyword with one character written as a unicode escape"""
+    out = []
+    pool = [t for t in texts if 10 <= len(t) <= 600]
+    word = re.compile(r"[A-Za-z_$][A-Za-z0-9_$]*")
+    tries = 0
+    while len(out) < n and tries < n * 5 and pool:
+        tries += 1
+        t = rng.choice(pool)
+        ms = list(word.finditer(t))
+        if not ms:
+            continue
+        m = rng.choice(ms)
+        k = rng.randrange(m.start(), m.end())
+        esc = ("\\u%04x" % ord(t[k])) if rng.random() < 0.7 else ("\\u{%x}" % ord(t[k]))
+        out.append(("escape", {"src": t[:k] + esc + t[k + 1:]}, None, None))
+    return out
+
+
 def collect_texts():
     texts = []
     for name, ast in jscore.grids("quick"):
@@ -97,6 +145,18 @@ def collect_texts():
             (mods if o.get("kind") == "module" else texts).append(o["src"])
     texts += [src for _, src in c10.LEAK_PROBES]
     return texts, mods
+
+
+# one small statement per keyword-introduced construct, so that the escape mutants reach every keyword position
+KEYWORD_SNIPPETS = [
+    "try { f() } catch (e) { g() } finally { h() }", "try { f() } catch { g() }", "try { f() } finally { h() }", "if (a) b; else c;", "do { x++ } while (x < 3)",
+    "for (var i = 0; i < 2; i++) continue;", "for (const k in o) break;", "for (let v of a) ;", "switch (x) { case 1: break; default: y }", "with (o) { p }",
+    "function f(a = 1, ...r) { return a }", "class A extends B { static m() { super.m() } get x() { return 1 } set x(v) {} constructor() { super() } }",
+    "async function g() { await 1; for await (const x of y) ; }", "function* h() { yield 1; yield* k() }", "var a = new F(), b = typeof a, c = void 0, d = delete a.b, e = a in b, f = a instanceof F;",
+    "label: for (;;) { break label }", "throw new Error('x')", "let x = 1; const y = 2; var z = 3;", "import('m'); import.meta;", "debugger;", "null; true; false; this;",
+    "x = { get a() { return 1 }, set a(v) {}, async m() {}, *g() {}, async *ag() {} }", "export default 1", "import a, { b as c } from 'm'", "export { a as b }; export * from 'm'",
+    "new.target", "a?.b?.[c]?.(d)", "(async () => await 1)()", "y = function* () { yield }", "enum = 1; implements = 2; interface = 3; package = 4; static = 5; yield = 6; let = 7; async = 8; of = 9; get = 10;",
+]
 
 
 def abort_class(how):
@@ -127,11 +187,13 @@ def run(tier, replay=None):
     rng = random.Random(vlib.seed() * 104729 + 2)
     texts, mods = collect_texts()
     nmut = 3000 if tier == "quick" else 40000
-    ms = c19.mutants(rng, texts + mods, nmut)
+    ms = c19.mutants(rng, texts + mods, nmut) + escape_mutants(rng, texts + mods + KEYWORD_SNIPPETS, nmut // 6)
     inputs = []                                   # (label, fields)
     take = texts if tier == "thorough" else rng.sample(texts, min(len(texts), 1500))
     inputs += [("corpus", {"src": t}) for t in take]
     inputs += [("probe", {"src": t}) for t in PROBES]
+    xp = extreme_probes()
+    inputs += [("extreme", {"src": t}) for t in (xp if tier == "thorough" else rng.sample(xp, 500))]
     inputs += [("mutant:" + kind, {("u16" if "u16" in f else "hex" if "hex" in f else "src"): f.get("u16") or f.get("hex") or f.get("src")})
                for kind, f, shown, units in ms]
     for t in mods:
